@@ -207,7 +207,10 @@ func (s *verifC13Suite) TestVerifC13(c *C) {
 	if os.Getenv("VERIF_SHARD") == "" {
 		t0 := time.Now()
 		var trans int
-		states, trans = vBFS("C13", c, []vPath{{}}, vGenFull(r.Thorough()), depth, 16)
+		// three roots: a classic device (refresh.retain default 2), a core device (default 3) and refresh.retain=4 from the
+		// start — with the latter two, three and four kept revisions (a NotBlocked revision between the current one and
+		// a blocked one) are inside the quick depth
+		states, trans = vBFS("C13", c, []vPath{{}, {Cfg: vCfg{Core: true}}, {Cfg: vCfg{Retain: "4"}}}, vGenFull(r.Thorough()), depth, 16)
 		os.MkdirAll(filepath.Dir(statesFile), 0755)
 		if err := os.WriteFile(statesFile, []byte(eng.JSON(states)), 0644); err != nil {
 			eng.HarnessError("cannot write %s: %v", statesFile, err)
